@@ -29,6 +29,14 @@ CLAIMED.update({
              text="Decides: no path from an error ReadState to a success result; chunk readers leave/guard after an error; callers re-test state_; return Ok requires stream exhausted, EOF chunk seen and header counts equal mesh counts; header/chunk/span validations present on the CFG; the reader never clears the stream state (sticky failbit + mandatory EOF chunk turn stream failures into errors); the writer returns Ok only under ostream.good() after the last write. Not decided: that every inconsistent header byte is caught (only the listed validations).",
              design="3/C18"),
 })
+CLAIMED.update({
+ "C05": dict(technique="static analysis: protocol conformance of every hand-written iterator/circulator body on the clang CFG (guard facts, dominance, post-dominance), sibling agreement of the six entity iterators",
+             text="Decides shape clauses for all 6 entity iterators x {ctor,++,--} and all circulator classes: step, skip loop, invalidation under exactly the complement of the loop bound, handle refresh on every path; ++/-- three-way outcome with lap >= max_laps resp. lap < 0; delegating circulators synchronise lap/valid/handle; _max_laps forwarded; duplicate removal for set relations; (begin, make_end_circulator(begin)) ranges and end iterators at the iterator's own bound. Not decided: that the collected incident set is the right set.",
+             design="3/C05"),
+ "C20": dict(technique="static analysis: transitive effect analysis over the resolved call graph of all const entry points (mutable members, non-const static storage, const-removing casts, writes to mesh members)",
+             text="Sound for the clause: over every repository function reachable from the ~1600 const entry points (kernels, iterators, property handles; property creation excluded as in the statement) there is no access to a mutable member, no non-const static-storage variable, no const-removing cast and no write to a mesh data member; iterators hold the mesh as pointer-to-const. With [res.on.data.races] for const container operations this implies absence of writes to shared state.",
+             design="3/C20"),
+})
 NOT_YET = {}
 NA = {
  "C10": "soundness/completeness of the lookup queries against a brute-force search is an equality over runtime values of small search loops; no structural necessary condition exists that is not a brittle proxy (DESIGN 3/C10)",
